@@ -336,6 +336,13 @@ func (e *Enc) builtin(cur *cursor, v ssa.Value, b *ssa.Builtin, c *ssa.CallCommo
 		e.setVal(cur, v, fmt.Sprintf("(sl_cap %s)", e.asTerm(e.value(fc, c.Args[0]))))
 	case "append":
 		e.appendCall(cur, v, c, pos)
+	case "delete":
+		// delete(m, k): k leaves the domain of m (a no-op on a nil map); the stale value is unobservable
+		mp := e.asTerm(e.value(fc, c.Args[0]))
+		k := e.asTerm(e.value(fc, c.Args[1]))
+		dn, ds, _, _ := e.mapArrs(c.Args[0].Type())
+		d := e.heapGet(st, dn, ds)
+		e.heapSet(st, dn, ds, fmt.Sprintf("(ite (= %s Nil) %s (store %s %s (store (select %s %s) %s false)))", mp, d, d, mp, d, mp, k))
 	case "ssa:wrapnilchk":
 		fc.vals[v] = e.value(fc, c.Args[0])
 	case "print", "println":
